@@ -233,6 +233,9 @@ func (rn *Runner) Finish(out string) {
 	for k, n := range routeCounts {
 		rn.St.Dist["alternate-route:"+k] += n
 	}
+	if callerCount > 0 {
+		rn.St.Dist["caller-implemented-Result:cases"] += callerCount
+	}
 	for k, n := range aftermathCount {
 		rn.St.Dist["aftermath:"+k] += n
 	}
